@@ -51,7 +51,9 @@ def match_finding(findings, prop, v):
     for f in findings:
         if f.get("status") != "known" or f.get("property") != prop:
             continue
-        if f.get("clause") != v.get("clause"):
+        if not fnmatch.fnmatchcase(str(v.get("clause")), f.get("clause", "*")):
+            continue
+        if f.get("exc") not in (None, "*") and not fnmatch.fnmatchcase(str((v.get("detail") or {}).get("exc", "")), f["exc"]):
             continue
         if f.get("op") not in (None, "*") and not fnmatch.fnmatchcase(str(v.get("op")), f["op"]):
             continue
